@@ -317,11 +317,9 @@ func runC11(c *Ctx) {
 					newerSw = s
 				}
 			}
-			if eb, ok := arbIf.Else.(*ast.BlockStmt); ok {
-				for _, st := range eb.List {
-					if s, ok := st.(*ast.SwitchStmt); ok {
-						olderSw = s
-					}
+			for _, st := range elseOrRest(f, arbIf) {
+				if s, ok := st.(*ast.SwitchStmt); ok {
+					olderSw = s
 				}
 			}
 			modesIn := func(cc *ast.CaseClause) []string {
